@@ -89,7 +89,7 @@ class C02(Cross):
     release_check = True        # "checked (debug) and optimized builds"
     pid = "C02"
     title = "totality"
-    thm_modules = ["PeliteModel.Thm.C02"]
+    thm_modules = ["PeliteModel.Thm.C02", "PeliteModel.Thm.C02Arith"]
 
     def bad(self, op, impl):
         k = klass(impl)
